@@ -47,7 +47,7 @@ def run_one(program):
 
 
 def strategy():
-    return gen_prog.program(sparse_rate=4, locked_rate=10)
+    return gen_prog.program(weights={"READ": 2}, sparse_rate=4, locked_rate=10)
 
 
 def still_fails(sig):
